@@ -34,12 +34,19 @@ def run(tier):
     contents = [0, 3] + ([1, 2, 0] if thorough else [])
     with open(trace, "w") as f:
         for k, content in enumerate(contents):
-            p = subprocess.run([exe, str(C.seed() + k * 1000), "4096", "1000" if k == 0 else "50", str(content)], stdout=subprocess.PIPE, timeout=300)
-            if p.returncode != 0:
-                ck.violation({"where": "implementation", "reason": "crc_probe terminated abnormally (%d)" % p.returncode})
-            for line in p.stdout.decode().split("\n"):
+            try:
+                p = subprocess.run([exe, str(C.seed() + k * 1000), "4096", "1000" if k == 0 else "50", str(content)], stdout=subprocess.PIPE, timeout=300)
+                out_b, prc = p.stdout, p.returncode
+            except subprocess.TimeoutExpired as ex:
+                out_b, prc = ex.stdout or b"", "timeout"
+            if prc != 0:
+                ck.violation({"where": "implementation", "reason": "the checksum code crashed or did not return (crc_probe: %s)" % prc})
+            for line in out_b.decode("utf-8", "replace").split("\n"):
                 if line:
-                    ev = json.loads(line)
+                    try:
+                        ev = json.loads(line)
+                    except ValueError:
+                        continue        # a line cut by the abnormal end
                     ev["x"] = ev["x"] + 1000 * k
                     if ev["e"] == "CrcTable" and k > 0:
                         continue
